@@ -1,10 +1,10 @@
 SPECIFICATION Spec
 CONSTANTS
-  MaxOps = 6
+  MaxOps = 5
   Widths = {0, 3, 9}
   Routes = {"string", "lines", "coloured"}
   CfgName = "rich"
   Emit = TRUE
-  EmitOneIn = 25
+  EmitOneIn = 4
 INVARIANTS Inv_P_C10 Inv_LiveTreesClean Inv_Emit
 CHECK_DEADLOCK FALSE
